@@ -24,12 +24,97 @@ def buf_jobs(tier):
             J.append(dict(name="buf_%s_L%d" % (opname, L), harness="buf_prim.c",
                           defines=["-DL=%d" % L, "-DOP=%d" % op, "-DVP_SIZES=%s" % ",".join(map(str, sizes))],
                           real=LIB, support=SUP, unwind=L + 8, leak=True,
+                          **({"kf_group": "binstr_skip"} if opname == "parse_dns_binstr" else {}),
                           bound="read-only ares_buf over an exact-size %d-byte object with symbolic contents, any offset "
                                 "0..%d, any tag; ONE %s with arbitrary arguments" % (L, L, opname)))
     return J
 
 
 NAME_LIB = LIB + ["src/lib/record/ares_dns_name.c", "src/lib/str/ares_buf.c", "src/lib/dsa/ares_llist.c"]
+
+
+SUP_POOL = ["vp_rt.c", "c02_alloc.c", "memloops.c", "c02_libc.c"]
+
+# Name shapes.  Tokens: int n = concrete byte n (label length / terminator / pointer byte); "A" any byte;
+# "P" plain hostname character; "O" printable, not hostname, not reserved; "R" reserved (needs a backslash);
+# "N" non-printable (\DDD).  (name, start offset, tokens, expected verdict or None, tier)
+K = {"A": 0, "P": 2, "O": 3, "R": 4, "N": 5}
+NAME_SHAPES = [
+    # plain label patterns, every content byte arbitrary (output length depends on the values)
+    ("1x1", 0, [1, "A", 0], None, "quick"),
+    ("1x3", 0, [3, "A", "A", "A", 0], None, "quick"),
+    ("1x5", 0, [5, "A", "A", "A", "A", "A", 0], None, "quick"),
+    ("2lab", 0, [2, "A", "A", 1, "A", 0], None, "quick"),
+    ("3lab", 0, [1, "A", 1, "A", 1, "A", 0], None, "quick"),
+    ("3lab2", 0, [2, "A", "A", 2, "A", "A", 2, "A", "A", 0], None, "quick"),
+    ("root", 0, [0], 1, "quick"),
+    # one escape class per position, longer text
+    ("classes", 0, [2, ord("a"), "P", 2, "R", ord("b"), 2, "N", ord("c"), 0], 1, "quick"),
+    ("other", 0, [2, "O", "P", 2, "N", "R", 0], 1, "quick"),
+    ("classes8", 0, [3, "P", "P", "P", 3, "R", "R", "R", 2, "N", "N", 0], 1, "quick"),
+    ("plain8", 0, [8] + [ord(c) for c in "abcdefgh"] + [3, "P", "P", "P", 0], 1, "quick"),
+    # compression
+    ("ptr", 3, [1, "A", 0, 1, "A", 0xC0, 0], None, "quick"),
+    ("ptr_only", 3, [1, "A", 0, 0xC0, 0], None, "quick"),
+    ("ptr_chain", 5, [1, "A", 0, 0xC0, 0, 1, "A", 0xC0, 3], None, "quick"),
+    ("ptr_mid", 4, [2, "A", "A", 0, 1, "A", 0xC0, 1 - 1], None, "quick"),
+    ("ptr_lowany", 3, [1, "P", 0, 0xC0, "A"], None, "quick-m0"),
+    ("ptr_hiany", 3, [1, "P", 0, "A", 0], None, "quick-m0"),
+    # the compression-pointer rule: every one of these must be REJECTED (never loop, never run forward)
+    ("bad_self", 0, [0xC0, 0], 0, "quick"),
+    ("bad_self_after_label", 0, [1, "A", 0xC0, 2], 0, "quick"),
+    ("bad_into_own_label", 0, [1, "A", 0xC0, 1], 0, "quick"),
+    ("bad_to_own_start", 0, [1, "A", 0xC0, 0], 0, "quick"),
+    ("bad_forward", 0, [0xC0, 2, 1, "A", 0], 0, "quick"),
+    ("bad_forward_via_earlier", 2, [0xC0, 4, 0xC0, 0, 1, "A", 0], 0, "quick"),
+    ("bad_two_cycle", 2, [0xC0, 2, 0xC0, 0], 0, "quick"),
+    ("bad_three_cycle", 4, [0xC0, 4, 0xC0, 0, 0xC0, 2], 0, "quick"),
+    ("bad_past_end", 0, [0xC0, 9, 0], 0, "quick"),
+    ("bad_trunc_label", 0, [3, "A", "A"], 0, "quick"),
+    ("bad_trunc_ptr", 2, [0, 0, 0xC0], 0, "quick"),
+    ("bad_resv40", 0, [0x40, "A", 0], 0, "quick"),
+    ("bad_resv80", 0, [0x80, "A", 0], 0, "quick"),
+    ("bad_noterm", 0, [1, "A", 1, "A"], 0, "quick"),
+]
+
+
+def shape_walk(toks, start):
+    """(outer iterations, longest label) of the walk over a shape whose structural bytes are concrete; None if a head
+    byte is symbolic."""
+    L = len(toks)
+    pos, mn, it, longest = start, start, 0, 0
+    while it < 3 * L + 3:
+        it += 1
+        mn = min(mn, pos)
+        if pos >= L:
+            return it, longest
+        c = toks[pos]
+        if not isinstance(c, int):
+            return None
+        pos += 1
+        if (c & 0xC0) == 0xC0:
+            if pos >= L:
+                return it, longest
+            lo = toks[pos]
+            if not isinstance(lo, int):
+                return None
+            pos += 1
+            off = ((c & 0x3F) << 8) | lo
+            if off >= mn:
+                return it, longest
+            pos = off
+            continue
+        if c & 0xC0 or c == 0:
+            return it, longest
+        longest = max(longest, min(c, L - pos))
+        if pos + c > L:
+            return it, longest
+        pos += c
+    return it, longest
+
+
+def shape_cells(toks):
+    return [(1, t) if isinstance(t, int) else (K[t], 0) for t in toks]
 
 
 def name_loop_bound(L):
@@ -60,15 +145,92 @@ def name_jobs(tier):
                             "offset 0..%d, both is_hostname values; main loop bound %d unwindings; totality, bounds, status/"
                             "cursor consistency (no reference walk)" % (L, L, name_loop_bound(L))))
     # arbitrary bytes, output mode (escaped text is returned): tiny sizes only (output length is data-dependent)
-    for L in (range(1, 5) if tier == "quick" else range(1, 7)):
+    for L in ((1, 2, 3) if tier == "quick" else (1, 2, 3, 4)):
         J.append(dict(name="name_out_L%d" % L, harness="name_parse.c",
-                      defines=["-DL=%d" % L, "-DMODE=1", "-DREF=1", "-DVP_SIZES=%d,32,48,64,128" % L],
-                      real=NAME_LIB, support=SUP, unwind=5 * L + 6,
-                      unwindset=["ares_dns_name_parse.0:%d" % name_loop_bound(L), "vp_realloc.0:130"],
-                      leak=True, witnesses=["end", "accepted", "rejected"],
+                      defines=["-DL=%d" % L, "-DMODE=1", "-DREF=1", "-DC02_ALLOC"],
+                      real=NAME_LIB, support=SUP_POOL, unwind=5 * L + 8,
+                      unwindset=["ares_dns_name_parse.0:%d" % name_loop_bound(L),
+                                 "ares_fetch_dnsname_into_buf.0:%d" % max(L, 2), "ares_buf_ensure_space.0:2"],
+                      leak=True, witnesses=["end", "accepted", "rejected"], fs_array=8,
                       bound="ares_dns_name_parse(name!=NULL) on an exact-size %d-byte object, ALL bytes arbitrary, any start "
                             "offset, both is_hostname values; returned text compared with the reference escaper; freed, leak "
                             "check" % L))
+    # shape-concrete names (label-length and pointer bytes concrete, content bytes symbolic), both modes
+    for nm, start, toks, expect, tier_ in NAME_SHAPES:
+        m0only = tier_.endswith("-m0")
+        tier_ = tier_.split("-")[0]
+        if tier == "quick" and tier_ != "quick":
+            continue
+        cells = shape_cells(toks)
+        L = len(cells)
+        nany = sum(1 for c in cells if c[0] != 1)
+        variants = [(0, None)]
+        if not m0only:
+            variants += [(1, 0)] if (expect is not None or nany == 0) else [(1, 0), (1, 1)]
+        w = shape_walk(toks, start)
+        outer, inner = (w[0] + 2, w[1] + 2) if w else (name_loop_bound(L), max(L, 2))
+        for mode, hn in variants:
+            d = ["-DL=%d" % L, "-DMODE=%d" % mode, "-DREF=1", "-DSTART=%d" % start,
+                 "-DSHAPE=" + ",".join("{%d,%d}" % c for c in cells)]
+            wit = ["end"]
+            if expect is not None:
+                d += ["-DEXPECT=%d" % expect, "-DHOSTNAME=0"]
+                wit.append("accepted" if expect else "rejected")
+            elif hn is not None:
+                d += ["-DHOSTNAME=%d" % hn]
+            job = dict(name="name_shape_%s_m%d%s" % (nm, mode, "" if hn is None else "h%d" % hn), harness="name_parse.c",
+                       real=NAME_LIB, unwind=5 * L + 8, leak=True, witnesses=wit,
+                       unwindset=["ares_dns_name_parse.0:%d" % outer,
+                                  "ares_fetch_dnsname_into_buf.0:%d" % inner, "ares_buf_ensure_space.0:2"],
+                       bound="ares_dns_name_parse(%s) on the %d-byte shape [%s] from offset %d: length/pointer bytes "
+                             "concrete, %d content bytes symbolic (class-restricted where the shape says so), is_hostname %s%s" %
+                             ("name!=NULL" if mode else "name=NULL", L, " ".join(str(t) for t in toks), start, nany,
+                              "symbolic" if (hn is None and expect is None) else str(hn or 0),
+                              "" if expect is None else "; must be %s for every value" % ("accepted" if expect else "rejected")))
+            if mode:
+                job["defines"] = d + ["-DC02_ALLOC"]
+                job["support"] = SUP_POOL
+            else:
+                job["defines"] = d + ["-DVP_SIZES=%d,48" % L]
+                job["support"] = SUP
+            J.append(job)
+    return J
+
+
+LEGACY_LIB = NAME_LIB + ["src/lib/legacy/ares_expand_name.c", "src/lib/legacy/ares_expand_string.c",
+                         "src/lib/ares_free_string.c"]
+
+
+def legacy_jobs(tier):
+    J = []
+    # ares_expand_name, s == NULL (skip; allowed by the API), arbitrary bytes, with the reference walk
+    for L in (range(1, 9) if tier == "quick" else range(1, 13)):
+        J.append(dict(name="expand_name_skip_L%d" % L, harness="name_parse.c",
+                      defines=["-DL=%d" % L, "-DAPI=1", "-DMODE=0", "-DREF=1", "-DVP_SIZES=%d,48" % L],
+                      real=LEGACY_LIB, support=SUP, unwind=2 * L + 4,
+                      unwindset=["ares_dns_name_parse.0:%d" % name_loop_bound(L)],
+                      leak=True, witnesses=["end", "accepted", "rejected", "api-rejected"],
+                      bound="ares_expand_name(abuf+off, abuf, alen, NULL, &enclen): abuf an exact-size %d-byte object, all "
+                            "bytes arbitrary, off 0..%d (incl. one-past-end), alen == %d or any value <= 0; compared with the "
+                            "reference walk" % (L, L, L)))
+    # ares_expand_name returning the string: tiny sizes (output length is data dependent)
+    for L in ((1, 2, 3) if tier == "quick" else (1, 2, 3, 4)):
+        J.append(dict(name="expand_name_out_L%d" % L, harness="name_parse.c",
+                      defines=["-DL=%d" % L, "-DAPI=1", "-DMODE=1", "-DREF=1", "-DC02_ALLOC"],
+                      real=LEGACY_LIB, support=SUP_POOL, unwind=5 * L + 8,
+                      unwindset=["ares_dns_name_parse.0:%d" % name_loop_bound(L),
+                                 "ares_fetch_dnsname_into_buf.0:%d" % max(L, 2), "ares_buf_ensure_space.0:2"],
+                      leak=True, witnesses=["end", "accepted", "rejected", "api-rejected"], fs_array=8,
+                      bound="ares_expand_name(..., &s, &enclen) on an exact-size %d-byte object, all bytes arbitrary, any "
+                            "offset, alen == %d or <= 0; string compared with the reference escaper, freed with "
+                            "ares_free_string" % (L, L)))
+    for L in (range(1, 9) if tier == "quick" else range(1, 13)):
+        J.append(dict(name="expand_string_L%d" % L, harness="expand_string.c",
+                      defines=["-DL=%d" % L, "-DVP_SIZES=%s" % ",".join(str(x) for x in sorted(set([L, 32, 48])))],
+                      real=LEGACY_LIB, support=SUP, unwind=max(L + 3, 5), kf_group="binstr_skip",
+                      leak=True, witnesses=["end", "accepted", "rejected", "at-end"] if L > 1 else ["end", "accepted", "at-end"],
+                      bound="ares_expand_string(abuf+off, abuf, alen, &s or NULL, &enclen): abuf an exact-size %d-byte object, "
+                            "all bytes arbitrary, off 0..%d (incl. one-past-end), alen == %d or any value <= 0" % (L, L, L)))
     return J
 
 
@@ -76,4 +238,5 @@ def jobs(tier, seed):
     J = []
     J += buf_jobs(tier)
     J += name_jobs(tier)
+    J += legacy_jobs(tier)
     return J
